@@ -188,10 +188,11 @@ class C03(core.Check):
     ]
     partial_note = (
         "Theorems: closure order on the generated relation table, geometric-sum law, end/first ratio, count specification "
-        "(uniqueness, never coarser / coarser with one fewer), executable exact count, inversion of the progression and of "
-        "Grading, guards, and end-to-end statements for the ten pairs on the model with exact solver answers. Validator-checked "
-        "only: that log/brentq/pow of the implementation meet their specifications (float rounding, scipy). Monotonicity in n "
-        "for fixed total expansion (uniqueness of the count for the size+total pairs) is not proved."
+        "(uniqueness, never coarser / coarser with one fewer), executable exact count (correct, complete, total), monotonicity in "
+        "the cell count for fixed total expansion, inversion of the progression, of Chop and of Grading, guards, the known-finding "
+        "counterexample, and end-to-end statements for the ten pairs on the model with exact solver answers. Validator-checked "
+        "only: that log/brentq/pow of the implementation meet their specifications (float rounding, scipy); rejections raised "
+        "inside a solver are taken from the implementation. End-to-end reversal is proved for (start size, c2c) only."
     )
 
     # ------------------------------------------------------------------ generators
